@@ -318,6 +318,8 @@ def run(tier):
     c20.seq_rules(chk)
     chk.floor('rule instances', len(chk.obls), 40)
     # the CCM record layer delegates the tag verdict to br_ccm_check_tag (shared with C14): every tag byte must count
+    from .c01 import explicit_nonce_from_record
+    explicit_nonce_from_record(chk)       # a nonce taken from the receiver's own counter makes the explicit nonce bytes unauthenticated
     from .c14 import tag_compare_shape
     tag_compare_shape(chk, 'src/aead/ccm.c', 'br_ccm_check_tag', 'br_ccm_get_tag', 'get_tag()')
     from .. import lints
